@@ -412,4 +412,27 @@ theorem PoolInv_run (H : Bytes → Bytes) (s : State) (ops : List Op) (h : PoolI
   | nil => exact ⟨h, hc⟩
   | cons op rest ih => exact ih _ (PoolInv_step H s op h hc) (ApplyCanon_step H s op hc)
 
+/-- Only CommitDpos, BlackNode and InitConfig change the governance view (the epoch). -/
+theorem gv_frame (H : Bytes → Bytes) (s : State) (op : Op)
+    (hop : (∀ sg o, op ≠ .commit sg o) ∧ (∀ sg a pks, op ≠ .black sg a pks) ∧ (∀ m ps, op ≠ .init m ps)) :
+    (step H s op).gv = s.gv := by
+  apply step_preserves H (fun t => t.gv = s.gv) s op
+  · intro t x ht; exact ht
+  · intro o ho _
+    cases op <;> plan_cases ho
+    all_goals try rfl
+    all_goals first
+      | exact absurd rfl (hop.1 _ _)
+      | exact absurd rfl (hop.2.2 _ _)
+  · intro ap hap s1 s2 n _ hs1 hf
+    cases op <;> plan_cases hap
+    all_goals (dsimp only at hf)
+    all_goals try (exact absurd rfl (hop.2.1 _ _ _))
+    all_goals try (obtain ⟨akb, _, he⟩ := candidateEffect_shape hf; rw [he]; exact hs1; done)
+    all_goals try (split at hf)
+    all_goals try (cases hf; done)
+    all_goals (injection hf with hf; injection hf with hf1 hf2; subst hf1; exact hs1)
+  · rfl
+
+
 end Poly.Model.Gov
